@@ -174,6 +174,38 @@ func genCallbacks(outDir string) (string, error) {
 		note("registration and delivery do not use one and the same mutex (%q, %q)", mAdd, mDel)
 	}
 
+	// WHERE the callbacks run (gen_callbacks_inv.go)
+	sites, regKinds := cbInvocationSites(files, typ, funcs, mutexes)
+	nResp, nRes := 0, 0
+	asyncOrUnlocked, notUnderRegistry := true, true
+	var siteStrs, underLock []string
+	for _, st := range sites {
+		siteStrs = append(siteStrs, strconv.Quote(st.String()))
+		if st.kind == "response" {
+			nResp++
+		} else {
+			nRes++
+		}
+		if !st.spawned && len(st.held) > 0 {
+			asyncOrUnlocked = false
+			underLock = append(underLock, strconv.Quote(st.String()))
+			note("a registered %s callback is invoked directly (not in a goroutine) in %s while %v is held: a callback that calls back into the feature blocks for ever", st.kind, st.via, st.held)
+		}
+		for _, m := range st.held {
+			if !st.spawned && mAdd != "" && m == mAdd {
+				notUnderRegistry = false
+			}
+		}
+	}
+	hasResp, hasRes := false, false
+	for _, k := range regKinds {
+		hasResp = hasResp || k == "response"
+		hasRes = hasRes || k == "result"
+	}
+	if !hasResp || !hasRes {
+		note("struct %s: callback registries found by type: %v (expected a map of function slices and a function slice)", typ, regKinds)
+	}
+
 	show := func(tr []hbEv, m string) string {
 		var s []string
 		for _, e := range tr {
@@ -214,13 +246,23 @@ func genCallbacks(outDir string) (string, error) {
 	sb.WriteString("def deliverOneSection : Bool := " + b2(deliverOne) + "\n")
 	sb.WriteString("/-- registration and delivery use one and the same mutex -/\n")
 	sb.WriteString("def sameMutex : Bool := " + b2(sameMutex) + "\n")
+	sb.WriteString("/-- every invocation of a function value taken from a callback registry (response: the map of function slices,\n    result: the function slice), through locals and helpers: `mode=go` = in a spawned goroutine, `held` = mutexes held -/\n")
+	sb.WriteString("def invocationSites : List String := [" + strings.Join(siteStrs, ", ") + "]\n")
+	sb.WriteString("def responseInvocationSites : Nat := " + strconv.Itoa(nResp) + "\n")
+	sb.WriteString("def resultInvocationSites : Nat := " + strconv.Itoa(nRes) + "\n")
+	sb.WriteString("/-- direct invocations while a mutex of the struct is held -/\n")
+	sb.WriteString("def invokedUnderLock : List String := [" + strings.Join(underLock, ", ") + "]\n")
+	sb.WriteString("/-- every invocation of a registered callback happens in a spawned goroutine OR with no mutex of the struct held -/\n")
+	sb.WriteString("def invocationsAsyncOrUnlocked : Bool := " + b2(asyncOrUnlocked) + "\n")
+	sb.WriteString("/-- no callback is invoked directly while the mutex of the registration section is held -/\n")
+	sb.WriteString("def noInvocationUnderRegistryMutex : Bool := " + b2(notUnderRegistry) + "\n")
 	sb.WriteString("def notes : List String := [" + strings.Join(qn, ", ") + "]\n\n")
 	sb.WriteString("end Spine.Generated.Callbacks\n")
 	if err := writeFile(outDir, "Callbacks.lean", sb.String()); err != nil {
 		return "", err
 	}
-	return fmt.Sprintf("registry %v, mutex %q: registerOneSection=%v registerChecksFirst=%v deliverOneSection=%v (%s) sameMutex=%v, %d note(s)",
-		keysOf(registry), mAdd, addOne, addChecks, deliverOne, strings.Join(delNames, ","), sameMutex, len(notes)), nil
+	return fmt.Sprintf("registry %v, mutex %q: registerOneSection=%v registerChecksFirst=%v deliverOneSection=%v (%s) sameMutex=%v; %d+%d invocation sites, asyncOrUnlocked=%v notUnderRegistryMutex=%v, %d note(s)",
+		keysOf(registry), mAdd, addOne, addChecks, deliverOne, strings.Join(delNames, ","), sameMutex, nResp, nRes, asyncOrUnlocked, notUnderRegistry, len(notes)), nil
 }
 
 func keysOf(m map[string]bool) []string {
